@@ -725,6 +725,18 @@ class TaskScenario(ScenarioData):
             if (effort > 0 and not is_milestone) or not self.property.get("end", self.scenarioIdx):
                 self.property[("end", self.scenarioIdx)] = actual_end
 
+        # A date the scheduler computed (not one the user gave) must lie inside the project
+        # period: a milestone a gap behind a task that ends at the project end does not fit.
+        project_start = self.project.attributes.get("start")
+        project_end = self.project.attributes.get("end")
+        for attr in ("start", "end"):
+            value = self.property.get(attr, self.scenarioIdx)
+            if value is None or self.property.provided(attr, self.scenarioIdx):
+                continue
+            if (project_start and value < project_start) or (project_end and value > project_end):
+                self.isRunAway = True
+                return False
+
         self.scheduled = True
         self.property[("scheduled", self.scenarioIdx)] = True
         return True
